@@ -322,6 +322,11 @@ func verifMain(args []string) int {
 	if len(args) >= 1 && args[0] == "serve" {
 		return serveStdio()
 	}
+	if len(args) == 5 && args[0] == "racesweep" {
+		seed, _ := strconv.ParseInt(args[2], 10, 64)
+		n, _ := strconv.Atoi(args[3])
+		return raceSweep(args[1], seed, n, args[4])
+	}
 	if len(args) == 2 && args[0] == "dumptags" {
 		n, _ := strconv.Atoi(args[1])
 		return dumpTags(n)
